@@ -41,7 +41,7 @@ def gen(rng, tier):
                 "array.rechunk.degree-limit", "array.optimize-graph"]
     cfg_keys = [k for k in cfg_keys if rng.random() < 0.6] or ["array.chunk-size"]
     hist = gen_history(rng, targets, cfg_keys, tier)
-    return {"recipe": recipe, "targets": targets, "history": hist, "knobs": knobs}
+    return {"scribble": rng.random() < 0.5, "recipe": recipe, "targets": targets, "history": hist, "knobs": knobs}
 
 
 def gen_history(rng, targets, cfg_keys, tier):
